@@ -14,7 +14,8 @@ open EinoV.Gen
 /-! ## property theorems (instantiated with the facts regenerated from /repo) -/
 
 /-- Source fact tie: the regenerated facts are the ones the theorems below are proved for. -/
-theorem facts_match : FactsC13.internalErrorHasUnwrap = Expected.C13.internalErrorHasUnwrap := by
+theorem facts_match : FactsC13.internalErrorHasUnwrap = Expected.C13.internalErrorHasUnwrap ∧
+    FactsC13.failedTaskReportedAsIs = Expected.C13.failedTaskReportedAsIs := by
   decide
 
 /-- **orig_recoverable (errors.Is half).** Whatever the nesting depth, node keys and
@@ -35,6 +36,37 @@ theorem node_path_named (levels : List Level) (e : GoErr) (h : userErr e = true)
   rw [hf]
   have := (failThrough_all levels e 0).2.2 (userErr_not_interrupt h)
   rw [this]; simp [nodePath, userErr_no_internal h]
+
+/-- **several_failures_one_is_reported.** When several tasks of one step fail, whatever the
+    collection order: the error of the step is the wrapped error of *one of the failed tasks*
+    (`wrapGraphNodeError(key, err)`), so `errors.Is` / `errors.As` reach that task's original
+    error and the node path names that task. -/
+theorem several_failures_one_is_reported (tasks : List (Key × Option GoErr))
+    (h : ∃ k e, (k, some e) ∈ tasks) :
+    ∃ k e, (k, some e) ∈ tasks ∧
+      reportStep FactsC13.internalErrorHasUnwrap FactsC13.failedTaskReportedAsIs tasks =
+        some (wrapNode FactsC13.internalErrorHasUnwrap k e) := by
+  have hf : FactsC13.failedTaskReportedAsIs = true := by decide
+  rw [hf]
+  induction tasks with
+  | nil => obtain ⟨k, e, hm⟩ := h; simp at hm
+  | cons t rest ih =>
+    obtain ⟨k0, r0⟩ := t
+    cases r0 with
+    | some e0 => exact ⟨k0, e0, by simp, by simp [reportStep]⟩
+    | none =>
+      obtain ⟨k, e, hm⟩ := h
+      have hm' : (k, some e) ∈ rest := by
+        rcases List.mem_cons.mp hm with h1 | h1
+        · cases h1
+        · exact h1
+      obtain ⟨k', e', h1, h2⟩ := ih ⟨k, e, hm'⟩
+      exact ⟨k', e', List.mem_cons_of_mem _ h1, by simpa [reportStep] using h2⟩
+
+/-- negation witness: an aggregated, text-only error of two failures matches neither original -/
+theorem aggregated_failures_not_recoverable :
+    (reportStep true false [("a", some (.leaf 1)), ("b", some (.leaf 2))]).map (fun e => (errorsIs true e 1, errorsIs true e 2)) =
+      some (false, false) := by decide
 
 /-- **sentinels_match.** A graph-level failure (`ErrExceedMaxSteps`, `ctx.Err()` wrapped
     with `%w`) raised at any nesting depth is matchable with `errors.Is` on the error the
